@@ -196,6 +196,9 @@ func checkC16(c *Check) {
 	// "a chain that fails code-signing validation" is refused: the gate's validator must be the
 	// one that enforces the profile (every accepting path of it passes every requirement, O-C03.A)
 	c.floor("code-signing profile rules (shared with C03)", 40, shareRules(c, checkC03, []string{"O-C03.A"}, "O-C16.1", "code-signing profile: "))
+	// "the signer reports no usable key": the key spec tables give an algorithm only for the six
+	// (key type, size) rows and zero for everything else (O-C02.1)
+	c.floor("key spec tables (shared with C02)", 10, shareRules(c, checkC02, []string{"O-C02.1"}, "O-C16.6", "key spec tables: "))
 }
 
 func localSignerRules(c *Check, rule string) {
